@@ -122,7 +122,7 @@ def struct_cfg(draw, topo):
     model = draw(st.sampled_from(["tube", "wingbox"]))
     if model == "wingbox":
         # smooth-derivative search: chords never exactly flat (|twist| kink of WingboxGeometry.fem_twists)
-        md["root_twist"] = draw(S.fl(0.5, 3.0, 1.0))
+        md["root_twist"] = draw(S.fl(1.0, 3.0, 1.5))
         md["side"]["twist"] = abs(md["side"]["twist"])
     ncp = draw(st.integers(2, 3))
     d = dict(
@@ -153,7 +153,8 @@ def struct_cfg(draw, topo):
 # model construction
 
 
-def build_model(desc):
+def build_model(desc, mode=None):
+    """mode: None (OpenMDAO default) | 'fwd' | 'rev'"""
     topo = desc["topo"]
     if topo == "aero":
         fl = dict(desc["flow"])
@@ -180,7 +181,8 @@ def build_model(desc):
             n = np.array([np.sin(a), 0.0, -np.cos(a)])
             b = max(float(np.max(np.abs(m[:, :, 1]))) for m in meshes)
             height = max(float(np.max(m @ n)) for m in meshes) + (desc["clear"] + 0.5) * b
-        p = aero_geom_problem(surfaces, fl, compressible=desc["compressible"], height=height)
+        p = aero_geom_problem(surfaces, fl, compressible=desc["compressible"], height=height, setup=False)
+        p.setup() if mode is None else p.setup(mode=mode)
         return p
     mesh = build_mesh(desc["mesh"])
     sym = desc["mesh"]["kind"] == "left"
@@ -224,11 +226,11 @@ def build_model(desc):
         p = struct_alone_problem(s, loads=L, load_factor=desc["flow"]["load_factor"], extra=extra, setup=False)
         if desc["fuel"]:
             p.model.connect("struct_setup.fuel_vols", "struct_states.fuel_vols")
-        p.setup()
+        p.setup() if mode is None else p.setup(mode=mode)
         return p
     fl = dict(desc["flow"])
     fl.update(masses)
-    return aerostruct_problem([s], fl, compressible=desc["compressible"])
+    return aerostruct_problem([s], fl, compressible=desc["compressible"], mode="auto" if mode is None else mode)
 
 
 # ------------------------------------------------------------------------------------------------------------------
